@@ -41,10 +41,10 @@ def run(cmd, timeout, mem_gb=8, cwd=None, stdout_path=None):
     try:
         if stdout_path:
             with open(stdout_path, 'w') as fo:
-                p = subprocess.run(cmd, stdout=fo, stderr=subprocess.PIPE, timeout=timeout, cwd=cwd, preexec_fn=_limits(mem_gb), text=True)
+                p = subprocess.run(cmd, stdout=fo, stderr=subprocess.PIPE, timeout=timeout, cwd=cwd, preexec_fn=_limits(mem_gb), text=True, errors='replace')
             out = ''
         else:
-            p = subprocess.run(cmd, stdout=subprocess.PIPE, stderr=subprocess.PIPE, timeout=timeout, cwd=cwd, preexec_fn=_limits(mem_gb), text=True)
+            p = subprocess.run(cmd, stdout=subprocess.PIPE, stderr=subprocess.PIPE, timeout=timeout, cwd=cwd, preexec_fn=_limits(mem_gb), text=True, errors='replace')
             out = p.stdout
         return p.returncode, out, p.stderr, time.time() - t0
     except subprocess.TimeoutExpired:
